@@ -313,13 +313,13 @@ class Ctx:
                 self.use(f)
 
     # ---------------------------------------------------------- obligations
-    def panic_summary(self, name, outs, ex, pre=()):
+    def panic_summary(self, name, outs, ex, pre=(), replay=None):
         """C20 obligation of a kernel / code fragment: no panicking path (MIR assert, unwrap/expect on the empty case,
         unreachable!, explicit panic) is feasible under the stated precondition, and the non-panicking paths cover it"""
         bad = [o for o in outs if o.kind in ('panic', 'unreachable', 'diverged')]
         good = [o for o in outs if o.kind not in ('panic', 'unreachable', 'diverged')]
         f = z3.Or([z3.And(o.pc) if o.pc else z3.BoolVal(True) for o in bad]) if bad else z3.BoolVal(False)
-        self.decide(f'{name}/panic-free ({len(bad)} panic sites on {len(outs)} paths)', list(pre) + [f], kind='panic', ex=ex,
+        self.decide(f'{name}/panic-free ({len(bad)} panic sites on {len(outs)} paths)', list(pre) + [f], kind='panic', ex=ex, on_sat=replay,
                     sample={'panic_sites': [o.msg[:120] for o in bad][:4], 'paths': len(outs)})
         self.extra.setdefault('panic_sites_examined', 0)
         self.extra['panic_sites_examined'] += len(bad)
